@@ -24,7 +24,7 @@ def fanout(F, inst, body, send_pat=r"mpsc::(bounded::)?Sender::send$", which=0):
     """K9 over the loop `for shard in <all_shards()>` number `which` in body."""
     bad = []
     nexts = []
-    for c in body.find_calls(r"Iterator>::next$"):
+    for c in for_headers(body):
         L = body.origins(c.args[0], transparent=NEXT_TRANSPARENT)
         if any(l[0] == "call" and norm_path(l[1]).endswith("ShardManager::all_shards") for l in L):
             nexts.append((c, L))
@@ -141,7 +141,7 @@ def run(ctx):
             pend = pushes[0].args[0]
             pl = body._origin_locals(pend)
             n2 = None
-            for c in body.find_calls(r"Iterator>::next$"):
+            for c in for_headers(body):
                 if c.bb in loop_blocks or c.bb == nx.bb:
                     continue
                 if body._origin_locals(c.args[0], depth=10) & pl:
@@ -220,7 +220,7 @@ def run(ctx):
         pushes = [p for p in b.find_calls(r"Vec::push$") if "Shard" in b.local_ty((p.args[1].get("m") or p.args[1].get("c") or [0])[0])]
         if not pushes:
             raise AnchorMissing("shards.push(shard)")
-        nxs = [c for c in b.find_calls(r"Iterator>::next$") if b.can_reach(c.bb, spawn.bb) and b.can_reach(spawn.bb, c.bb)]
+        nxs = [c for c in for_headers(b) if b.can_reach(c.bb, spawn.bb) and b.can_reach(spawn.bb, c.bb)]
         inst.sites = [sp(b, spawn.bb)] + [sp(b, p.bb) for p in pushes]
         bad = []
         if not nxs:
